@@ -629,3 +629,277 @@ def _c03_extra_with_state():
 
 
 EXTRA["C03"] = _c03_extra_with_state
+
+
+# =================================================================================================
+# phase 3: (a) structural facts of the functions that decide the property, (b) masking sites OUTSIDE direct/nn (data pipeline,
+# SSL transforms, datasets) with multiplicative sites classified, (c) the plan of CreateSamplingMask.__call__
+SSL = "direct/ssl/ssl.py"
+
+FACT_FUNCS = [   # (name, file, qualified name, tensor-valued parameters)
+    ("apply_mask", T, "apply_mask", ["kspace", "mask_func"]),
+    ("apply_padding", T, "apply_padding", ["data", "padding"]),
+    ("ApplyMaskModule.forward", MT, "ApplyMaskModule.forward", []),
+    ("ApplyZeroPadding.__call__", MT, "ApplyZeroPadding.__call__", []),
+    ("CreateSamplingMask.__call__", MT, "CreateSamplingMask.__call__", []),
+    ("ModuleWrapper.SubWrapper.__call__", MT, "ModuleWrapper.SubWrapper.__call__", []),
+    ("MRIModelEngine._forward_operator", ENG, "MRIModelEngine._forward_operator", ["image", "sensitivity_map", "sampling_mask"]),
+    ("MRIModelEngine._backward_operator", ENG, "MRIModelEngine._backward_operator", ["kspace", "sensitivity_map", "sampling_mask"]),
+    ("MRILogLikelihood.forward", RIM, "MRILogLikelihood.forward",
+     ["input_image", "masked_kspace", "sensitivity_map", "sampling_mask", "loglikelihood_scaling"]),
+    ("ConjGrad._A_star_op", CG, "ConjGrad._A_star_op", ["kspace", "sensitivity_map", "sampling_mask"]),
+]
+_MUTATORS = {"setdefault", "update", "append", "add", "insert", "extend", "pop", "popitem", "clear", "register_buffer", "__setattr__",
+             "__setitem__", "move_to_end"}
+
+
+def _module_containers(tree: ast.Module) -> set[str]:
+    out = set()
+    for st in tree.body:
+        if isinstance(st, (ast.Assign, ast.AnnAssign)) and st.value is not None:
+            val = st.value
+            tgts = st.targets if isinstance(st, ast.Assign) else [st.target]
+            if isinstance(val, (ast.Dict, ast.List, ast.Set, ast.ListComp, ast.DictComp)) or (
+                    isinstance(val, ast.Call) and ast.unparse(val.func).split(".")[-1] in (
+                        "dict", "list", "set", "OrderedDict", "defaultdict", "WeakKeyDictionary", "WeakValueDictionary", "deque")):
+                for t in tgts:
+                    if isinstance(t, ast.Name) and t.id != "__all__":
+                        out.add(t.id)
+    return out
+
+
+def _base_name(e: ast.AST):
+    while isinstance(e, (ast.Subscript, ast.Attribute)):
+        if isinstance(e, ast.Attribute) and isinstance(e.value, ast.Name) and e.value.id == "self":
+            return "self." + e.attr
+        e = e.value
+    return e.id if isinstance(e, ast.Name) else None
+
+
+def func_facts(tree: ast.Module, fn: ast.FunctionDef, tensor_params: list[str]) -> dict:
+    containers = _module_containers(tree)
+    params = [a.arg for a in fn.args.args + fn.args.kwonlyargs if a.arg != "self"]
+    defaults = dict(zip([a.arg for a in fn.args.args][len(fn.args.args) - len(fn.args.defaults):], fn.args.defaults))
+    mutable_defaults = {p for p, d in defaults.items()
+                        if isinstance(d, (ast.Dict, ast.List, ast.Set)) or (isinstance(d, ast.Call) and ast.unparse(d.func) in ("dict", "list", "set"))}
+    tensors = set(tensor_params)
+    for n in ast.walk(fn):                       # locals read from the sample dict are tensors of the caller
+        if (isinstance(n, ast.Assign) and len(n.targets) == 1 and isinstance(n.targets[0], ast.Name)
+                and isinstance(n.value, ast.Subscript) and isinstance(n.value.value, ast.Name) and n.value.value.id in params):
+            tensors.add(n.targets[0].id)
+    f = {"returns": 0, "inputReturns": 0, "stateWrites": 0, "inplaceOnArgs": 0, "ifs": 0, "loops": 0}
+    for dec in fn.decorator_list:
+        d = ast.unparse(dec)
+        if "cache" in d or "memo" in d:
+            f["stateWrites"] += 1
+    fname = fn.name
+    for n in ast.walk(fn):
+        if isinstance(n, ast.Return):
+            f["returns"] += 1
+            v = n.value
+            first = v.elts[0] if isinstance(v, ast.Tuple) and v.elts else v
+            if isinstance(first, ast.Name) and first.id in tensor_params:
+                f["inputReturns"] += 1
+        elif isinstance(n, (ast.If, ast.IfExp)):
+            f["ifs"] += 1
+        elif isinstance(n, (ast.For, ast.While, ast.ListComp, ast.GeneratorExp, ast.DictComp, ast.SetComp)):
+            f["loops"] += 1
+        elif isinstance(n, (ast.Global, ast.Nonlocal)):
+            f["stateWrites"] += 1
+        tgts = []
+        if isinstance(n, ast.Assign):
+            tgts = n.targets
+        elif isinstance(n, (ast.AugAssign, ast.AnnAssign)):
+            tgts = [n.target]
+        for t in tgts:
+            for e in (t.elts if isinstance(t, (ast.Tuple, ast.List)) else [t]):
+                base = _base_name(e)
+                if base is None:
+                    continue
+                if base.startswith("self.") or (base in containers and not isinstance(e, ast.Name)) or base == fname \
+                        or (base in mutable_defaults and not isinstance(e, ast.Name)):
+                    f["stateWrites"] += 1
+                elif base in tensors and (isinstance(e, ast.Subscript) or isinstance(n, ast.AugAssign)):
+                    f["inplaceOnArgs"] += 1
+        if isinstance(n, ast.Call):
+            if isinstance(n.func, ast.Attribute):
+                base = _base_name(n.func.value)
+                meth = n.func.attr
+                if meth in _MUTATORS and base is not None and (base.startswith("self.") or base in containers or base in mutable_defaults
+                                                               or base == fname):
+                    f["stateWrites"] += 1
+                if base in tensors and meth.endswith("_") and not meth.endswith("__"):
+                    f["inplaceOnArgs"] += 1
+            if ast.unparse(n.func) in ("setattr", "object.__setattr__"):
+                f["stateWrites"] += 1
+            for kw in n.keywords:
+                if kw.arg == "out" and isinstance(kw.value, ast.Name) and kw.value.id in tensors:
+                    f["inplaceOnArgs"] += 1
+    return f
+
+
+def _facts_lean(rows: list[tuple[str, dict]]) -> str:
+    body = ",\n".join(
+        f"  {{ name := {_lean_str(n)}, returns := {f['returns']}, inputReturns := {f['inputReturns']}, stateWrites := {f['stateWrites']}, "
+        f"inplaceOnArgs := {f['inplaceOnArgs']}, ifs := {f['ifs']}, loops := {f['loops']} }}" for n, f in rows)
+    return ("/-- structural facts of the functions that decide the property (returns, returns of an input, state written, in-place "
+            "updates of arguments, branches, loops), read from the AST -/\ndef func_facts : List FuncFacts := [\n" + body + "\n]\n")
+
+
+def _mul_kind(node: ast.BinOp, other: ast.AST, parents: dict) -> str:
+    def masklike(e):
+        if _masky(e) or isinstance(e, (ast.Compare, ast.BoolOp)):
+            return True
+        if isinstance(e, ast.Call):
+            txt = ast.unparse(e.func)
+            if txt.split(".")[-1] in ("ones", "ones_like", "astype", "bool", "int"):
+                return True
+        return False
+    if masklike(other):
+        return "mask algebra"
+    p = node
+    while isinstance(parents.get(id(p)), ast.BinOp) and isinstance(parents[id(p)].op, ast.Mult):
+        p = parents[id(p)]
+    par = parents.get(id(p))
+    if isinstance(par, ast.BinOp) and isinstance(par.op, ast.Add):
+        o = par.right if par.left is p else par.left
+        if isinstance(o, ast.Constant) and isinstance(o.value, float) and o.value == 0.0:
+            return "multiplication by the mask, + 0.0"
+    return "multiplication by the mask"
+
+
+def scan_data_sites(repo) -> list[dict]:
+    """masking sites in `direct/` outside `direct/nn`: where / apply_mask forms as in `scan_nn_sites`; products classified"""
+    import pathlib
+
+    sites = []
+    root = pathlib.Path(repo) / "direct"
+    for path in sorted(root.rglob("*.py")):
+        rel = str(path.relative_to(repo))
+        if rel.startswith("direct/nn/"):
+            continue
+        try:
+            tree = parse_file(path)
+        except Untranslatable:
+            continue
+        parents = {}
+        for p in ast.walk(tree):
+            for ch in ast.iter_child_nodes(p):
+                parents[id(ch)] = p
+
+        def qual_of(n):
+            names = []
+            p = parents.get(id(n))
+            while p is not None:
+                if isinstance(p, (ast.FunctionDef, ast.AsyncFunctionDef, ast.ClassDef)):
+                    names.append(p.name)
+                p = parents.get(id(p))
+            return ".".join(reversed(names))
+
+        for n in ast.walk(tree):
+            if isinstance(n, ast.FunctionDef) and n.name in ("apply_mask", "apply_padding") and rel == T:
+                continue
+            if isinstance(n, ast.Call):
+                fname = ast.unparse(n.func)
+                if fname == "torch.where" and len(n.args) == 3 and any(_masky(x) for x in ast.walk(n.args[0])):
+                    qual = qual_of(n)
+                    if rel == T and qual in ("apply_mask", "apply_padding"):
+                        continue                     # the anchored kernels themselves (translated separately)
+                    sites.append({"file": rel, "func": qual, "form": '.flagged "torch.where outside the verified functions"',
+                                  "operand": ast.unparse(n.args[2]), "mask": ast.unparse(n.args[0]), "zero": ""})
+                elif fname.split(".")[-1] == "apply_mask" and len(n.args) >= 2:
+                    comp = isinstance(n.args[1], ast.UnaryOp) and isinstance(n.args[1].op, ast.Invert)
+                    sites.append({"file": rel, "func": qual_of(n), "form": f".applyMask {'true' if comp else 'false'}",
+                                  "operand": ast.unparse(n.args[0]), "mask": ast.unparse(n.args[1]), "zero": "kspace"})
+                elif isinstance(n.func, ast.Attribute) and n.func.attr in ("masked_fill", "masked_fill_", "masked_scatter"):
+                    sites.append({"file": rel, "func": qual_of(n), "form": f'.flagged "{n.func.attr}"',
+                                  "operand": ast.unparse(n.func.value), "mask": ast.unparse(n.args[0]) if n.args else "", "zero": ""})
+                elif fname in ("torch.mul", "torch.multiply", "np.multiply") and any(_masky(x) for x in n.args):
+                    sites.append({"file": rel, "func": qual_of(n), "form": '.flagged "multiplication by the mask"',
+                                  "operand": ast.unparse(n.args[0]), "mask": ast.unparse(n.args[1]), "zero": ""})
+            elif isinstance(n, ast.BinOp) and isinstance(n.op, ast.Mult) and (_masky(n.left) or _masky(n.right)):
+                m, d = (n.left, n.right) if _masky(n.left) else (n.right, n.left)
+                sites.append({"file": rel, "func": qual_of(n), "form": f'.flagged "{_mul_kind(n, d, parents)}"',
+                              "operand": ast.unparse(d), "mask": ast.unparse(m), "zero": ""})
+            elif isinstance(n, ast.AugAssign) and isinstance(n.op, ast.Mult) and _masky(n.value):
+                sites.append({"file": rel, "func": qual_of(n), "form": '.flagged "multiplication by the mask"',
+                              "operand": ast.unparse(n.target), "mask": ast.unparse(n.value), "zero": ""})
+    return sites
+
+
+def create_sampling_mask_plan(fn: ast.FunctionDef) -> list[bool]:
+    """facts of CreateSamplingMask.__call__ in execution order (see Bridge/C03 `create_sampling_mask_plan_eq`)"""
+    body = fn.body
+    norm = lambda s: " ".join(ast.unparse(s).split())  # noqa: E731
+    shape_if = next((s for s in body if isinstance(s, ast.If) and norm(s.test) == "not self.shape"), None)
+    seed_as = next((s for s in body if isinstance(s, ast.Assign) and norm(s.targets[0]) == "seed"), None)
+    mask_as = next((s for s in body if isinstance(s, ast.Assign) and norm(s.targets[0]) == "sampling_mask"
+                    and isinstance(s.value, ast.Call)), None)
+    pad_if = next((s for s in body if isinstance(s, ast.If) and "padding" in norm(s.test)), None)
+    store = next((s for s in body if isinstance(s, ast.Assign) and norm(s.targets[0]) == "sample['sampling_mask']"), None)
+    if None in (shape_if, seed_as, mask_as, store):
+        raise Untranslatable("CreateSamplingMask.__call__ no longer has the shape / seed / mask / store statements")
+    default_shape = len(shape_if.body) == 1 and norm(shape_if.body[0]) == "shape = sample['kspace'].shape[1:]"
+    rest = shape_if.orelse
+    none_branch = full_branch = False
+    if len(rest) == 1 and isinstance(rest[0], ast.If):
+        b = rest[0]
+        none_branch = (norm(b.test) == "any((_ is None for _ in self.shape))" and len(b.body) == 2
+                       and norm(b.body[0]) == "kspace_shape = list(sample['kspace'].shape[1:-1])"
+                       and norm(b.body[1]) == "shape = tuple((_ if _ else kspace_shape[idx] for idx, _ in enumerate(self.shape))) + (2,)")
+        full_branch = len(b.orelse) == 1 and norm(b.orelse[0]) == "shape = self.shape + (2,)"
+    seed_ok = norm(seed_as.value) == "None if not self.use_seed else tuple(map(ord, str(sample['filename'])))"
+    call = mask_as.value
+    kw = {k.arg: norm(k.value) for k in call.keywords}
+    call_ok = (norm(call.func) == "self.mask_func" and not call.args
+               and kw == {"shape": "shape", "seed": "seed", "return_acs": "False"})
+    pad_ok = (pad_if is not None and norm(pad_if.test) == "'padding' in sample" and len(pad_if.body) == 1 and not pad_if.orelse
+              and norm(pad_if.body[0]) == "sampling_mask = T.apply_padding(sampling_mask, sample['padding'])")
+    order = [s.lineno for s in (shape_if, seed_as, mask_as)] + ([pad_if.lineno] if pad_if is not None else []) + [store.lineno]
+    store_ok = norm(store.value) == "sampling_mask" and order == sorted(order)
+    return [default_shape, none_branch, full_branch, seed_ok, call_ok, pad_ok, store_ok]
+
+
+_prev_extra3 = EXTRA["C03"]
+
+
+def _c03_extra_phase3():
+    from ..gen import REPO
+    from ..pyexpr import find_function
+
+    text, status = _prev_extra3()
+    try:
+        rows = []
+        for name, file, qual, tensors in FACT_FUNCS:
+            tree = parse_file(REPO / file)
+            rows.append((name, func_facts(tree, find_function(tree, qual), tensors)))
+        text += "\n" + _facts_lean(rows)
+        status["func_facts"] = f"translated ({len(rows)} functions)"
+    except Untranslatable as e:
+        text += f"\n/-- SKIPPED ({e}); stands for the hand-written model -/\ndef func_facts : List FuncFacts := expectedFacts\n"
+        status["func_facts"] = f"skipped: {e}"
+    try:
+        sites = scan_data_sites(REPO)
+        rows = [f"  {{ file := {_lean_str(s['file'])}, func := {_lean_str(s['func'])}, form := {s['form']},\n"
+                f"    operand := {_lean_str(s['operand'][:120])}, mask := {_lean_str(s['mask'])}, zeroDtypeOf := {_lean_str(s['zero'])} }}"
+                for s in sites]
+        text += ("\n/-- every masking site in `direct/` outside `direct/nn` (data pipeline, SSL transforms, datasets) -/\n"
+                 "def data_mask_sites : List Site := [\n" + ",\n".join(rows) + "\n]\n")
+        status["data_mask_sites"] = f"translated ({len(sites)} sites)"
+    except Exception as e:  # noqa: BLE001
+        text += f"\n/-- SKIPPED ({type(e).__name__}: {e}) -/\ndef data_mask_sites : List Site := []\n"
+        status["data_mask_sites"] = f"skipped: {e}"
+    try:
+        plan = create_sampling_mask_plan(find_function(parse_file(REPO / MT), "CreateSamplingMask.__call__"))
+        text += ("\n/-- `CreateSamplingMask.__call__`: (shape defaults to kspace.shape[1:], None entries filled from kspace.shape[1:-1] + (2,), "
+                 "complete shape + (2,), seed = ord-tuple of the filename iff use_seed, mask_func(shape, seed, return_acs=False), padded "
+                 "positions cleared with apply_padding, stored under 'sampling_mask' after that) -/\n"
+                 "def create_sampling_mask_plan : List Bool := [" + ", ".join("true" if b else "false" for b in plan) + "]\n")
+        status["create_sampling_mask_plan"] = "translated"
+    except Untranslatable as e:
+        text += (f"\n/-- SKIPPED ({e}) -/\ndef create_sampling_mask_plan : List Bool := [true, true, true, true, true, true, true]\n")
+        status["create_sampling_mask_plan"] = f"skipped: {e}"
+    return text, status
+
+
+EXTRA["C03"] = _c03_extra_phase3
